@@ -604,6 +604,12 @@ impl IoLoop {
             // buffered_writes_high_water data enqueued to write already, unregister all
             // channels (other than channel 0), and don't reregister until we're down to
             // buffered_writes_low_water.
+            #[cfg(amiquip_verif)]
+            let verif_before = (
+                listening_to_channels,
+                self.inner.channels_need_repoll,
+                have_written_to_socket,
+            );
             if listening_to_channels && self.inner.outbuf.len() > self.buffered_writes_high_water {
                 debug!("passed high water mark for buffered writes; blocking channels internally",);
                 self.inner.deregister_nonzero_channels(&self.poll)?;
@@ -656,6 +662,17 @@ impl IoLoop {
                     .reregister(stream, STREAM, interest, PollOpt::edge())
                     .context(RegisterWithPollHandleSnafu)?;
             }
+            #[cfg(amiquip_verif)]
+            verif_probe::trace_tail(verif_probe::TailRec {
+                listening_before: verif_before.0,
+                need_before: verif_before.1,
+                have_written_before: verif_before.2,
+                had_data: had_data_to_write,
+                outlen: self.inner.outbuf.len(),
+                listening_after: listening_to_channels,
+                need_after: self.inner.channels_need_repoll,
+                have_written_after: have_written_to_socket,
+            });
         }
     }
 }
